@@ -350,7 +350,7 @@ class QosWorld:
                     acts.append((("call", i), 1))
         if "foreign" in dev and self.writes:
             last = self.writes[-1][2]
-            for k in sorted(FOREIGN):
+            for k in sorted(self.params.get("foreign_kinds") or FOREIGN):  # (state-hashing runs name the kinds: every subset x order explodes)
                 if (k, last) not in self.foreign_done and FOREIGN[k](last):
                     acts.append((("foreign", k), 1))
         return acts
@@ -590,7 +590,7 @@ def canon(w: "QosWorld") -> tuple:
     callers = tuple(
         None
         if c is None
-        else (c["res"] if c["res"] is None or c["res"][0] != "pkt" else ("pkt", c["res"][1]), None if c["end_t"] is None else "ended")
+        else (c["res"] if c["res"] is None or c["res"][0] != "pkt" else ("pkt", c["res"][1]), round(now - c["start_t"], 6) if c["end_t"] is None else "ended")
         for c in w.callers
     )
     pending = tuple((p["kind"], p["frame"], bool(p.get("dup"))) for p in w.pending)
